@@ -104,7 +104,7 @@ func c03Structured(maxVal int, three bool) {
 	lifetime := base - c03Age(age)
 	shareable := verifAnd(len(joined) > 0, verifNot(prohibited))
 	verifAssert("C03.struct.stored-only-if-shareable", verifImplies(got > 0, shareable))
-	verifAssert("C03.struct.lifetime", verifImplies(shareable, got == lifetime))
-	verifAssert("C03.struct.not-shareable-means-zero", verifImplies(verifNot(shareable), got == 0))
+	verifAssert("C03.struct.lifetime", verifImplies(shareable, verifIteBool(lifetime > 0, got == lifetime, got <= 0)))
+	verifAssert("C03.struct.not-shareable-is-not-stored", verifImplies(verifNot(shareable), got <= 0))
 	verifReach("C03.struct.end")
 }
